@@ -44,6 +44,24 @@ package ro
 //@   ensures [clears-only-the-current-generation|C11] subject == ite(currentSubject == old(subject), nil, old(subject))
 //@   ensures [leaves-the-count-alone|C11,C14] refCount == old(refCount)
 
+//@ func ShareWithConfig$1$3$2
+//@   note the error callback of the proxy between the source and the subject: the shared state is settled (the generation reset, or marked as kept) BEFORE the subject's subscribers hear about the error, so that whatever they do in response - leave, subscribe again - and whoever arrives meanwhile sees the final state
+//@   type shareEnv
+//@   props C11
+//@   binds ctx err config currentSubject currentSourceSubscription
+//@   track currentSubject.* currentSourceSubscription.*
+//@   ensures [resets-before-telling-the-subscribers|C11] config.ResetOnError ==> trace(currentSourceSubscription.Unsubscribe(), currentSubject.ErrorWithContext(ctx, err)) && heldat(mu, currentSourceSubscription.Unsubscribe) && notheldat(mu, currentSubject.ErrorWithContext)
+//@   ensures [marks-the-kept-generation-before-telling-the-subscribers|C11] !config.ResetOnError ==> trace(currentSubject.ErrorWithContext(ctx, err)) && atevent(currentSubject.ErrorWithContext, hasBeenResetOnError) == 1
+
+//@ func ShareWithConfig$1$3$3
+//@   note the completion callback of the proxy: as the error callback
+//@   type shareEnv
+//@   props C11
+//@   binds ctx config currentSubject currentSourceSubscription
+//@   track currentSubject.* currentSourceSubscription.*
+//@   ensures [resets-before-telling-the-subscribers|C11] config.ResetOnComplete ==> trace(currentSourceSubscription.Unsubscribe(), currentSubject.CompleteWithContext(ctx)) && heldat(mu, currentSourceSubscription.Unsubscribe) && notheldat(mu, currentSubject.CompleteWithContext)
+//@   ensures [marks-the-kept-generation-before-telling-the-subscribers|C11] !config.ResetOnComplete ==> trace(currentSubject.CompleteWithContext(ctx)) && atevent(currentSubject.CompleteWithContext, hasBeenResetOnCompletion) == 1
+
 //@ func ShareWithConfig$1$3$4
 //@   note the teardown of one subscriber
 //@   type shareEnv
